@@ -51,7 +51,7 @@ def draw_value(t, part):
     if form == 1:
         return x
     if form == 2:
-        return ['\u00e9\x00\U0001f600', [], {'b': b'\x00' + bytes([7]), 'n': [x, None]}]
+        return ['\u00e9\x00\U0001f600', [b'in-list', [x, b'deeper']], {'b': b'\x00' + bytes([7]), 'n': [x, None]}]
     if form == 3:
         return (x, 'two')
     return (b'raw', {'k': x}, [x])
@@ -191,7 +191,7 @@ def parts(tier):
     return out
 
 
-CHECKS = [dict(name='end-to-end', fn=h, parts=parts, budget={'quick': 80, 'thorough': 900}, per_path_s=30)]
+CHECKS = [dict(name='end-to-end', fn=h, parts=parts, budget={'quick': 180, 'thorough': 900}, per_path_s=30)]
 
 META = dict(
     explanation='A real Client and a real Server (and AsyncClient/AsyncServer on one miniloop) are joined back to back; '
